@@ -1,2 +1,80 @@
-(* C20 - placeholder while the proofs are being written *)
-From Adapt Require Import Num.Qaux Rect.RectBase Rect.ScanlineModel.
+(* C20 - results are reproducible; routing / VPSC are independent of the frame.
+   Only statements closed by `exact`; proofs in Rect/Determinism.v (scan line, hand-written model tied by the
+   correspondence of checks/c09.py + c20.py), Geom/Symmetry.v and Geom/GeomProofs.v (about the cpp2v-GENERATED
+   Gen/Geometry.v), Cola/PseudoRandom.v (hand-written LCG model tied by correspondence). *)
+From Adapt Require Import Num.Qaux Rect.RectBase Rect.ScanlineModel Rect.Determinism
+  Geom.GeomSpec Gen.Geometry Geom.GeomProofs Geom.Symmetry Cola.PseudoRandomModel Cola.PseudoRandom.
+Local Open Scope Q_scope.
+
+(* original CmpNodePos (centre, address): no equal centres => the address order is irrelevant *)
+Theorem C20_scanline_addr_independent xb yb rs :
+  (distinct_pos (posX xb rs) -> forall a1 a2 b,
+     generateXConstraints (cmp_node_pos_addr a1) xb yb rs b = generateXConstraints (cmp_node_pos_addr a2) xb yb rs b) /\
+  (distinct_pos (posY yb rs) -> forall a1 a2,
+     generateYConstraints (cmp_node_pos_addr a1) xb yb rs = generateYConstraints (cmp_node_pos_addr a2) xb yb rs).
+Proof. exact (scanline_addr_independent xb yb rs). Qed.
+Print Assumptions C20_scanline_addr_independent.
+
+(* ... and with equal centres it is not: defect F-d (replayed on the real code with allocator priming) *)
+Theorem C20_scanline_addr_refuted :
+  exists rs a1 a2, injective a1 /\ injective a2 /\
+    generateYConstraints (cmp_node_pos_addr a1) 0 0 rs <> generateYConstraints (cmp_node_pos_addr a2) 0 0 rs /\
+    generateXConstraints (cmp_node_pos_addr a1) 0 0 rs true <> generateXConstraints (cmp_node_pos_addr a2) 0 0 rs true /\
+    generateXConstraints (cmp_node_pos_addr a1) 0 0 rs false <> generateXConstraints (cmp_node_pos_addr a2) 0 0 rs false.
+Proof. exact scanline_addr_refuted. Qed.
+Print Assumptions C20_scanline_addr_refuted.
+
+(* repaired CmpNodePos (centre, Variable::id, address) with pairwise distinct ids: deterministic, whatever the centres *)
+Theorem C20_scanline_deterministic ids xb yb rs : distinct_ids (length rs) ids ->
+  forall a1 a2,
+    (forall b, generateXConstraints (cmp_node_pos_id ids a1) xb yb rs b = generateXConstraints (cmp_node_pos_id ids a2) xb yb rs b) /\
+    generateYConstraints (cmp_node_pos_id ids a1) xb yb rs = generateYConstraints (cmp_node_pos_id ids a2) xb yb rs.
+Proof. exact (scanline_deterministic ids xb yb rs). Qed.
+Print Assumptions C20_scanline_deterministic.
+
+Theorem C20_removeoverlaps_ids_distinct n : distinct_ids n (map Z.of_nat (seq 0 n)).
+Proof. exact (seq_ids_distinct n). Qed.
+Print Assumptions C20_removeoverlaps_ids_distinct.
+
+(* translating every rectangle leaves the generated constraint list unchanged (same l, r, gap) *)
+Theorem C20_scanline_translate tx ty addr ids xb yb rs :
+  (forall b, generateXConstraints (cmp_node_pos_addr addr) xb yb (map (rect_translate tx ty) rs) b =
+             generateXConstraints (cmp_node_pos_addr addr) xb yb rs b) /\
+  generateYConstraints (cmp_node_pos_addr addr) xb yb (map (rect_translate tx ty) rs) =
+  generateYConstraints (cmp_node_pos_addr addr) xb yb rs /\
+  (forall b, generateXConstraints (cmp_node_pos_id ids addr) xb yb (map (rect_translate tx ty) rs) b =
+             generateXConstraints (cmp_node_pos_id ids addr) xb yb rs b) /\
+  generateYConstraints (cmp_node_pos_id ids addr) xb yb (map (rect_translate tx ty) rs) =
+  generateYConstraints (cmp_node_pos_id ids addr) xb yb rs.
+Proof. exact (scanline_translate tx ty addr ids xb yb rs). Qed.
+Print Assumptions C20_scanline_translate.
+
+(* libavoid predicates (generated code): translation and the 8 symmetries of the square *)
+Theorem C20_predicates_translate a b c d t :
+  vecDir (pt_add a t) (pt_add b t) (pt_add c t) 0 = vecDir a b c 0 /\
+  segmentIntersect (pt_add a t) (pt_add b t) (pt_add c t) (pt_add d t) = segmentIntersect a b c d.
+Proof. exact (conj (vecDir_translate a b c t) (segmentIntersect_translate a b c d t)). Qed.
+Print Assumptions C20_predicates_translate.
+
+Theorem C20_predicates_symmetry s a b c d :
+  vecDir (sq_apply s a) (sq_apply s b) (sq_apply s c) 0 = (sq_sign s * vecDir a b c 0)%Z /\
+  segmentIntersect (sq_apply s a) (sq_apply s b) (sq_apply s c) (sq_apply s d) = segmentIntersect a b c d.
+Proof. exact (conj (vecDir_symmetry s a b c) (segmentIntersect_symmetry s a b c d)). Qed.
+Print Assumptions C20_predicates_symmetry.
+
+Theorem C20_all_eight_symmetries s : In s all_sq.
+Proof. exact (all_sq_complete s). Qed.
+Print Assumptions C20_all_eight_symmetries.
+
+(* PseudoRandom: the stream is a function of the seed, with an explicit recurrence *)
+Theorem C20_pseudorandom_recurrence k seed n : (n < k)%nat ->
+  nth n (stream k seed) 0 = inject_Z (Z.shiftr (iter_next (S n) seed) 16) / inject_Z pr_range.
+Proof. exact (stream_recurrence k seed n). Qed.
+Print Assumptions C20_pseudorandom_recurrence.
+
+Theorem C20_pseudorandom_range seed : 0 <= snd (getNext seed) <= 1.
+Proof. exact (getNext_range seed). Qed.
+Print Assumptions C20_pseudorandom_range.
+
+(* NOT PROVED here (stated as missing, see checks/c20.py META): vpsc_translate over the IncSolver model
+   Vpsc/VpscModel.v (adding t to every desired position adds t to every result); it is validated by the replay runs. *)
